@@ -67,7 +67,7 @@ Module GrpT.
         pose proof (c_spec3 (cc sx)); pose proof (l_spec3 (lc sx)); pose proof (b2n_le1 (ctx_done sx));
         unf; rew_eqs sx; cbn in *;
         (constructor; unfold set_errs, with_panic, set_kc, set_cc, set_lk, set_sess, set_ctx, set_hb, set_lc, set_claims, set_budget, set_fw;
-         cbn; rew_goal sx; cbn; try lia)
+         cbn; rew_goal sx; cbn; try lia2)
       end
     end.
 
@@ -93,7 +93,7 @@ Module GrpT.
         cbn -[Nat.mul Nat.sub Nat.add]; rew_goal sx; cbn -[Nat.mul Nat.sub Nat.add];
         repeat match goal with |- context [b2n ?b] => is_var b; destruct b end;
         repeat match goal with |- context [b2n (seen_e ?x)] => destruct (seen_e x) end;
-        cbn -[Nat.mul Nat.sub Nat.add]; unfold sessP; try lia
+        cbn -[Nat.mul Nat.sub Nat.add]; unfold sessP; try lia2
       end
     end.
 
